@@ -93,6 +93,7 @@ type Fault struct {
 	Nth      int
 	Kind     FaultKind
 	PanicIdx int
+	ErrIdx   int // FErr: which shape of error value is returned (see InjectedErr)
 }
 
 // CloseFault makes Close of the instance produced by (Ctor, Nth invocation, output Out) fail.
@@ -106,6 +107,43 @@ type SentinelErr struct {
 }
 
 func (e *SentinelErr) Error() string { return fmt.Sprintf("injected ctor error c%d#%d", e.Ctor, e.Nth) }
+
+// Stateless error values: the zero value of their type IS the error, as with
+// context.DeadlineExceeded or `type errNotReady struct{}`. An error is a failure because the
+// interface is non-nil, not because the value inside is non-zero.
+type ZeroErr struct{}
+
+func (ZeroErr) Error() string { return "injected ctor error (stateless struct value)" }
+
+type CodeErr int
+
+func (CodeErr) Error() string { return "injected ctor error (integer code 0)" }
+
+// ErrShapes names the shapes InjectedErr produces.
+var ErrShapes = []string{"pointer", "zero-struct", "zero-int", "wrapped"}
+
+// InjectedErr builds the error a faulted constructor returns.
+func InjectedErr(idx, ctor, nth int) error {
+	switch idx % len(ErrShapes) {
+	case 1:
+		return ZeroErr{}
+	case 2:
+		return CodeErr(0)
+	case 3:
+		return fmt.Errorf("constructor gave up: %w", &SentinelErr{Ctor: ctor, Nth: nth})
+	}
+	return &SentinelErr{Ctor: ctor, Nth: nth}
+}
+
+// IsInjected reports whether the constructor's own error is reachable in err (errors.Is / As).
+// The stateless shapes carry no position; ctor < 0 accepts any position.
+func IsInjected(err error, ctor, nth int) bool {
+	var se *SentinelErr
+	if errors.As(err, &se) {
+		return ctor < 0 || (se.Ctor == ctor && se.Nth == nth)
+	}
+	return errors.Is(err, ZeroErr{}) || errors.Is(err, CodeErr(0))
+}
 
 // CloseErr is what a faulted Close returns.
 type CloseErr struct{ ID int64 }
@@ -293,7 +331,7 @@ func Construct(ctor int, outs []*Inst, types []string, args ...any) (Action, err
 		switch f.Kind {
 		case FErr:
 			r.add(Event{Kind: CtorFail, G: g, Op: oi.Op, Scope: oi.Scope, Ctor: ctor, Nth: nth, Note: "err"})
-			return RetErr, &SentinelErr{Ctor: ctor, Nth: nth}
+			return RetErr, InjectedErr(f.ErrIdx, ctor, nth)
 		case FNil:
 			r.add(Event{Kind: CtorFail, G: g, Op: oi.Op, Scope: oi.Scope, Ctor: ctor, Nth: nth, Note: "nil"})
 			return RetNil, nil
